@@ -194,6 +194,12 @@ fn sort_by_biggest_timestamp(v: &mut Vec<SstMetadata>)
         forall|x: SstMetadata| final(v)@.contains(x) <==> old(v)@.contains(x),
         forall|i: int, j: int| 0 <= i < j < final(v)@.len() ==> final(v)@[i].big() <= final(v)@[j].big(),
 { unimplemented!() }
+// a sort by anything else: a permutation, in an order this unit knows nothing about
+#[verifier::external_body]
+fn sort_by_other_field(v: &mut Vec<SstMetadata>)
+    ensures final(v)@.len() == old(v)@.len(),
+        forall|x: SstMetadata| final(v)@.contains(x) <==> old(v)@.contains(x),
+{ unimplemented!() }
 
 impl Level {
     // ASSUMED (partition_point over files sorted by key range whose metadata bounds their keys): the window
@@ -231,7 +237,9 @@ impl Version {
 //@ extract lsmtk/src/tree/mod.rs | impl Version :: fn load
 //@ ret r
 //@ rewrite X7 `let mut level0 = self.levels[0].ssts.clone();` => `let mut level0 = clone_files(&self.levels[0].ssts);`
-//@ rewrite X7 `level0.sort_by_key(|md| md.biggest_timestamp);` => `sort_by_biggest_timestamp(&mut level0);`
+//@ rewrite-re? X7 `level0\.sort_by_key\(\|md\| md\.biggest_timestamp\);` => `sort_by_biggest_timestamp(&mut level0);`
+//@ rewrite-re? X7 `level0\.sort_by_key\(\|md\| md\.(\w+)\);` => `sort_by_other_field(&mut level0);`
+//@ rewrite-re? X7 `level0\.sort_by_key\(\|md\| std::cmp::Reverse\(md\.(\w+)\)\);` => `sort_by_other_field(&mut level0);`
 //@ rewrite-re? X13 `for l0 in level0\.into_iter\(\)\.rev\(\) \{` => `let mut idx0: usize = level0.len(); while idx0 > 0 { idx0 = idx0 - 1; let l0 = &level0[idx0];`
 //@ rewrite-re? X13 `for l0 in level0\.into_iter\(\) \{` => `let mut idx0: usize = 0; while idx0 < level0.len() { let l0 = &level0[idx0]; idx0 = idx0 + 1;`
 //@ rewrite-re X13 `for level in self\.levels\[(\d+)\.\.\]\.iter\(\) \{` => `let mut idxl: usize = \1; while idxl < self.levels.len() { let level = &self.levels[idxl]; idxl = idxl + 1;`
